@@ -1,7 +1,11 @@
 package props
 
 import (
+	"bytes"
 	"fmt"
+	"regexp"
+	"runtime"
+	"strings"
 	"hash/fnv"
 	"math/rand"
 	"os"
@@ -94,9 +98,31 @@ func TestProp(t *testing.T) {
 		emit(out, fmt.Sprintf("START %d", i))
 		rec := sim.NewRec(prop)
 		rng := rand.New(rand.NewSource(caseSeed(seed, prop, i)))
-		body := func(t *testing.T) { def.Run(t, rng, rec, tier, i) }
+		body := func(t *testing.T) {
+			def.Run(t, rng, rec, tier, i)
+			if def.Bubble {
+				// goroutines of the library that are still alive although the case closed every socket
+				// and client: report them instead of letting the bubble die with a bare deadlock panic
+				synctest.Wait()
+				if left := bubbleCensus(); len(left) > 0 {
+					rec.Violate("goroutines-left-blocked", firstFrame(left[0]), "%d goroutine(s) of pion/turn are still blocked after the case shut everything down: %s", len(left), strings.Join(left, " || "))
+				}
+			}
+		}
 		if def.Bubble {
-			synctest.Test(t, body)
+			func() {
+				defer func() {
+					if r := recover(); r != nil {
+						if msg := fmt.Sprint(r); strings.Contains(msg, "blocked goroutines remain") {
+							rec.Ev("bubble-ended-with-blocked-goroutines")
+
+							return
+						}
+						panic(r)
+					}
+				}()
+				synctest.Test(t, body)
+			}()
 		} else {
 			body(t)
 		}
@@ -118,4 +144,59 @@ func TestProp(t *testing.T) {
 		runOne(i)
 	}
 	emit(out, "DONE")
+}
+
+var pionFn = regexp.MustCompile(`github\.com/pion/turn/v5[^\s(]*\.[A-Za-z_(*).]+`)
+
+// bubbleCensus lists goroutines of the current bubble (other than the caller) that have a
+// pion/turn frame on their stack, each as "state: frame < frame".
+func bubbleCensus() []string {
+	buf := make([]byte, 1<<20)
+	buf = buf[:runtime.Stack(buf, true)]
+	var out []string
+	for i, g := range bytes.Split(buf, []byte("\n\n")) {
+		if i == 0 {
+			continue // the calling goroutine
+		}
+		hdr, _, _ := bytes.Cut(g, []byte("\n"))
+		if !bytes.Contains(hdr, []byte("synctest bubble")) {
+			continue
+		}
+		var frames []string
+		for _, l := range strings.Split(string(g), "\n") {
+			if strings.Contains(l, "verifharness") {
+				continue
+			}
+			if m := pionFn.FindString(l); m != "" && !strings.HasPrefix(l, "\t") && !strings.HasPrefix(l, "created by") {
+				frames = append(frames, strings.TrimPrefix(m, "github.com/pion/turn/v5"))
+			}
+		}
+		if len(frames) == 0 {
+			continue
+		}
+		if len(frames) > 3 {
+			frames = frames[:3]
+		}
+		state := string(hdr)
+		if a, b := strings.Index(state, "["), strings.Index(state, "]"); a >= 0 && b > a {
+			state = state[a+1 : b]
+		}
+		if j := strings.Index(state, ","); j > 0 {
+			state = state[:j]
+		}
+		out = append(out, state+": "+strings.Join(frames, " < "))
+	}
+
+	return out
+}
+
+func firstFrame(s string) string {
+	if i := strings.Index(s, ": "); i >= 0 {
+		s = s[i+2:]
+	}
+	if i := strings.Index(s, " < "); i >= 0 {
+		s = s[:i]
+	}
+
+	return s
 }
